@@ -384,7 +384,7 @@ class BuilderProp(Prop):
 class C10(BuilderProp):
     id = "C10"
     projection_name = "out (build result: bytes, or the index of the failing call)"
-    streams = (buildgen.exhaustive_histories, buildgen.random_histories, buildgen.size_boundary, buildgen.parse_round_trip)
+    streams = (buildgen.exhaustive_histories, buildgen.random_histories, buildgen.size_boundary, buildgen.parse_round_trip, buildgen.long_batches)
     trusted_extra = ("capacity reservations are modelled as a counter no output depends on; their effect on allocation is not modelled (capacities are kept <= 100000 by the generators)",)
 
     def groups(self, stream, e, meta):
@@ -399,7 +399,7 @@ class C10(BuilderProp):
                 extra.append(o)
             extra.append("R=2")
             yield ("same", [build_case(c, ops), build_case(c, erased), build_case(c, extra)])
-        if any(o.startswith("B=") for o in ops):
+        if any(o.startswith("B=") for o in ops) and not any("*" in o for o in ops):
             flat = []
             for o in ops:
                 if o.startswith("B="):
@@ -445,7 +445,7 @@ class C10(BuilderProp):
 class C09(BuilderProp):
     id = "C09"
     projection_name = "out (build result: bytes incl. the length field, or the index of the failing call)"
-    streams = (buildgen.exhaustive_histories, buildgen.random_histories, buildgen.size_boundary)
+    streams = (buildgen.exhaustive_histories, buildgen.random_histories, buildgen.size_boundary, buildgen.long_batches)
 
     def groups(self, stream, e, meta):
         c, ops = e
@@ -490,15 +490,14 @@ class C20(Prop):
     assumptions = ("`below its size limit` is read as: writer contents + encoding <= 65551 bytes (DESIGN 2.2)",)
 
     def groups(self, stream, e, meta):
-        pre, p = e
-        yield ("write", ["write %s %s" % (pre, p)])
+        yield ("write", ["write " + " ".join(e)])        # (prefill, value) or (prefill, value, earlier writes)
 
     def classify(self, case, line):
         kind = case.split(" ")[2].split(":")[0]
         return "%s kind=%s" % (line.split(" ")[0], kind)
 
     def neighbours(self, case, rng):
-        _, pre, p = case.split(" ")
+        _, pre, p = case.split(" ")[:3]
         for n in list(range(0, 40)) + list(range(65500, 65560)):
             yield ("write", ["write %s %s" % ("fill:%d:00" % n if n else "-", p)], {})
 
@@ -507,9 +506,11 @@ class C20(Prop):
         if line == "PANIC":
             return "write_to / to_bytes panicked"
         pre = expr_len(cases[0].split(" ")[1])
-        m = re.match(r"W=(OK (\d+)|ERR) kept=([01]) app=(\S+) TB=(OK (\S+)|ERR)$", line)
+        m = re.match(r"W=(OK (\d+)|ERR) kept=([01]) app=(\S+) TB=(OK (\S+)|ERR)(?: pre=(\d+))?$", line)
         if not m:
             return "unparseable observation"
+        if m.group(7) is not None:
+            pre = int(m.group(7))       # what the writer held after the earlier writes of this case
         ok, n, kept, app, tb = m.group(1).startswith("OK"), m.group(2), m.group(3), m.group(4), m.group(6)
         sm = re.match(r"ENC (\S+) big=([01])$", spec[0])
         enc, big = sm.group(1), sm.group(2) == "1"
@@ -1137,6 +1138,16 @@ def ctor_cases(tier, rng, k, n):
             else:
                 yield ("ctor-pair", ("pair", "6,%s,%d,%d,%d,6,%s,%d,%d,%d" % (hx(a), sp, crng.below(1 << 32), crng.below(3),
                                                                             hx(b), dp, crng.below(1 << 32), crng.below(3))), {"fam": (6, 6)})
+    # identical endpoints: the same address -- and the same port, flow label and scope -- in both roles (a relation
+    # between the two arguments rather than a value of either)
+    for a in ip4_classes(crng)[k::n]:
+        for sp, dp in ((80, 80), (80, 81)):
+            yield ("ctor-pair", ("pair", "4,%s,%d,4,%s,%d" % (hx(a), sp, hx(a), dp)), {"fam": (4, 4)})
+            yield ("ctor-ip4", ("ip4new", "%s,%s,%d,%d" % (hx(a), hx(a), sp, dp)), {})
+    for a in ip6_classes(crng)[k::n]:
+        for sp, dp, fl, sc in ((443, 443, 7, 3), (443, 443, 0, 0), (443, 444, 7, 3)):
+            yield ("ctor-pair", ("pair", "6,%s,%d,%d,%d,6,%s,%d,%d,%d" % (hx(a), sp, fl, sc, hx(a), dp, fl, sc)), {"fam": (6, 6)})
+            yield ("ctor-ip6", ("ip6new", "%s,%s,%d,%d" % (hx(a), hx(a), sp, dp)), {})
     idx = 0
     for a in ip4_classes(crng):
         for b in ip6_classes(crng):
